@@ -43,8 +43,21 @@ func checkNames(r *Run, prog *Program, pfx string) {
 			ps.Seed = func(st *pstate) { st.eqc[p.Key()] = constKey(c) }
 			sums := ps.Run(m)
 			got := "?"
-			if len(sums) == 1 && len(sums[0].Results) == 1 && sums[0].Results[0].K == sConst && sums[0].Results[0].C != nil && sums[0].Results[0].C.Kind() == constant.String {
-				got = constant.StringVal(sums[0].Results[0].C)
+			if len(sums) == 1 && len(sums[0].Results) == 1 {
+				res := sums[0].Results[0]
+				if res.K == sLoad && res.A.K == sIndexAddr && res.A.A.K == sGlobal {
+					// a lookup in a package-level table initialised once: resolve the element
+					if idx, ok := constValue(sums[0].St, res.A.B); ok {
+						if i, exact := constant.Int64Val(idx); exact {
+							if el, ok := globalArrayElem(prog, res.A.A.V.(*ssa.Global), i); ok {
+								res = el
+							}
+						}
+					}
+				}
+				if res.K == sConst && res.C != nil && res.C.Kind() == constant.String {
+					got = constant.StringVal(res.C)
+				}
 			}
 			want, has := spec[c.Name()]
 			ok := has && got == want
@@ -114,6 +127,55 @@ func checkNames(r *Run, prog *Program, pfx string) {
 	}
 }
 
+// globalArrayElem: element i of a package-level array/slice variable that is written only by package initialisation.
+func globalArrayElem(prog *Program, g *ssa.Global, i int64) (*Sym, bool) {
+	init := g.Pkg.Func("init")
+	if init == nil {
+		return nil, false
+	}
+	for _, fn := range prog.ModuleFuncs() {
+		if fn == init {
+			continue
+		}
+		for _, b := range fn.Blocks {
+			for _, ins := range b.Instrs {
+				if st, ok := ins.(*ssa.Store); ok {
+					if root, _ := rootOf(st.Addr); root == ssa.Value(g) {
+						return nil, false
+					}
+				}
+			}
+		}
+	}
+	var found *Sym
+	for _, b := range init.Blocks {
+		for _, ins := range b.Instrs {
+			st, ok := ins.(*ssa.Store)
+			if !ok {
+				continue
+			}
+			ia, ok := st.Addr.(*ssa.IndexAddr)
+			if !ok {
+				continue
+			}
+			root, _ := rootOf(ia.X)
+			if root != ssa.Value(g) {
+				continue
+			}
+			c, ok := ia.Index.(*ssa.Const)
+			if !ok || c.Value == nil {
+				continue
+			}
+			if v, exact := constant.Int64Val(c.Value); exact && v == i {
+				if cv, ok := st.Val.(*ssa.Const); ok {
+					found = &Sym{K: sConst, C: cv.Value, T: cv.Type()}
+				}
+			}
+		}
+	}
+	return found, found != nil
+}
+
 // checkDumpInduction: per ExpressionDump method: open line, each child once in declaration order with (w, indent, level+1), close line.
 func checkDumpInduction(r *Run, prog *Program, ga *GA, pfx string) {
 	exprT := prog.grammarType("Expression")
@@ -134,6 +196,7 @@ func checkDumpInduction(r *Run, prog *Program, ga *GA, pfx string) {
 		pRecv, pW, pIndent, pLevel := paramSym(m.Params[0]), paramSym(m.Params[1]), paramSym(m.Params[2]), paramSym(m.Params[3])
 		children := exprFields(nt)
 		ps := NewPathSim(prog)
+		ps.maxVisits = 5
 		ps.Inline = func(c *ssa.Function) bool { return prog.InModule(c) && c.Signature.Recv() == nil }
 		sums := ps.Run(m)
 		if len(sums) == 0 {
